@@ -20,6 +20,13 @@ Theorem C10_greedy_contract : forall L P e pre now (c : cluster L) offered ds cf
 Proof. exact contract_generic. Qed.
 Print Assumptions C10_greedy_contract.
 
+(* planning happens on a copy: EDF / LSF restart from the empty cluster exactly when preemptive (deepcopy),
+   FIFO never; translated from the source, equal to the documented mode used by the monitors *)
+Theorem C10_greedy_copy_mode : forall pre,
+  p_reset edf pre = doc_reset 0 pre /\ p_reset fifo pre = doc_reset 1 pre /\ p_reset lsf pre = doc_reset 2 pre.
+Proof. intros [|]; repeat split. Qed.
+Print Assumptions C10_greedy_copy_mode.
+
 (* the decidable form used as a monitor on the implementation's decisions *)
 Theorem C10_greedy_monitor : forall L offered v now ds,
   contract_check L offered v now ds = true <-> Contract L offered v now ds.
